@@ -12,6 +12,7 @@ mod rng;
 mod s_c06;
 mod s_c08;
 mod s_c09;
+mod s_c10;
 mod s_smoke;
 mod wire;
 
@@ -62,6 +63,7 @@ fn main() {
         "C06" => s_c06::run(&mut em, thorough, seed),
         "C08" => s_c08::run(&mut em, thorough, seed),
         "C09" => s_c09::run(&mut em, thorough, seed),
+        "C10" => s_c10::run(&mut em, thorough, seed),
         "smoke" => s_smoke::run(&mut em),
         "evalmix" => s_eval::run_profile(
             &mut em,
